@@ -45,6 +45,9 @@ typedef tlx::btree_set<KEY, Cmp, Traits<KEY, KEY> > BT;
 #define VAL(k, v) (k)
 #define KEYOF(x) (x)
 #endif
+#ifdef TLX_VERIF_NATIVE   // the native replay links this TU alone
+#include <tlx/die/core.cpp>
+#endif
 struct Pos { const void* leaf; unsigned short slot; };   // an iterator position
 static Pos pos_of(const BT::const_iterator& it) { Pos p; p.leaf = it.curr_leaf; p.slot = it.curr_slot; return p; }
 extern "C" {
@@ -57,6 +60,7 @@ bool w_bt_insert(BT* t, KEY k, int v, Pos* at) { BT::iterator it = t->insert(VAL
 bool w_bt_insert(BT* t, KEY k, int v, Pos* at) { std::pair<BT::iterator, bool> r = t->insert(VAL(k, v)); *at = pos_of(r.first); return r.second; }
 #endif
 bool w_bt_erase_one(BT* t, KEY k) { return t->erase_one(k); }
+void w_bt_erase_iter(BT* t, const void* leaf, unsigned short slot) { BT::iterator it = t->begin(); it.curr_leaf = (decltype(it.curr_leaf))leaf; it.curr_slot = slot; t->erase(it); }
 size_t w_bt_erase(BT* t, KEY k) { return t->erase(k); }
 bool w_bt_exists(const BT* t, KEY k) { return t->exists(k); }
 size_t w_bt_count(const BT* t, KEY k) { return t->count(k); }
@@ -69,6 +73,24 @@ size_t w_bt_size(const BT* t) { return t->size(); }
 bool w_bt_empty(const BT* t) { return t->empty(); }
 void w_bt_verify(const BT* t) { t->verify(); }
 // one iterator step forward / backward from a position
+// ---- node primitives (Layer A): private members reached with -fno-access-control ----
+typedef BT::btree_impl Impl;
+typedef Impl::LeafNode LeafN;
+typedef Impl::InnerNode InnerN;
+struct Res { unsigned flags; KEY lastkey; };
+static Res res_of(const Impl::result_t& r) { Res x; x.flags = r.flags; x.lastkey = r.lastkey; return x; }
+unsigned short w_bt_find_lower_leaf(const BT* t, const LeafN* n, KEY k) { return t->tree_.find_lower(n, k); }
+unsigned short w_bt_find_lower_inner(const BT* t, const InnerN* n, KEY k) { return t->tree_.find_lower(n, k); }
+unsigned short w_bt_find_upper_leaf(const BT* t, const LeafN* n, KEY k) { return t->tree_.find_upper(n, k); }
+unsigned short w_bt_find_upper_inner(const BT* t, const InnerN* n, KEY k) { return t->tree_.find_upper(n, k); }
+void w_bt_shift_left_leaf(LeafN* l, LeafN* r, InnerN* p, unsigned ps, Res* out) { *out = res_of(Impl::shift_left_leaf(l, r, p, ps)); }
+void w_bt_shift_right_leaf(LeafN* l, LeafN* r, InnerN* p, unsigned ps) { Impl::shift_right_leaf(l, r, p, ps); }
+void w_bt_shift_left_inner(InnerN* l, InnerN* r, InnerN* p, unsigned ps) { Impl::shift_left_inner(l, r, p, ps); }
+void w_bt_shift_right_inner(InnerN* l, InnerN* r, InnerN* p, unsigned ps) { Impl::shift_right_inner(l, r, p, ps); }
+void w_bt_merge_leaves(BT* t, LeafN* l, LeafN* r, InnerN* p, Res* out) { *out = res_of(t->tree_.merge_leaves(l, r, p)); }
+void w_bt_merge_inner(InnerN* l, InnerN* r, InnerN* p, unsigned ps, Res* out) { *out = res_of(Impl::merge_inner(l, r, p, ps)); }
+void w_bt_split_leaf(BT* t, LeafN* leaf, KEY* newkey, void** newleaf) { Impl::node* n = nullptr; t->tree_.split_leaf_node(leaf, newkey, &n); *newleaf = n; }
+void w_bt_split_inner(BT* t, InnerN* inner, KEY* newkey, void** newinner, unsigned addslot) { Impl::node* n = nullptr; t->tree_.split_inner_node(inner, newkey, &n, addslot); *newinner = n; }
 void w_bt_next(BT* t, Pos* at) { BT::iterator it = t->begin(); it.curr_leaf = (decltype(it.curr_leaf))at->leaf; it.curr_slot = at->slot; ++it; *at = pos_of(it); }
 void w_bt_prev(BT* t, Pos* at) { BT::iterator it = t->begin(); it.curr_leaf = (decltype(it.curr_leaf))at->leaf; it.curr_slot = at->slot; --it; *at = pos_of(it); }
 }
